@@ -9,13 +9,13 @@ for f in glob.glob(os.path.join(here, "tool/internal/rules/*.go")):
 
 # id -> (what the rules decide, what is assumed / not decided, technique, design ref)
 P = {
- "C01": ("Structural decision over all paths and call sites: each iteration / drop is recorded exactly once in progress stats and metrics with the outcome read after the recovered body (path multiplicity + provenance); period accumulators are drained by atomic read-and-clear whose result feeds the lifetime totals (atomic discipline); collectors are reachable only under Result.mu held for writing (who-may-call + lock state); outcome routing tables agree; final totals are taken after the workers are gone.",
+ "C01": ("Structural decision over all paths and call sites: each iteration / drop is recorded exactly once in progress stats and metrics with the outcome read after the recovered body (path multiplicity + provenance); period accumulators are drained by atomic read-and-clear whose result feeds the lifetime totals (atomic discipline); collectors are reachable only under Result.mu held for writing (who-may-call + lock state); outcome routing tables agree; final totals are taken after the workers are gone. The final totals are stored unmodified and exactly once on every path where they are taken (no earlier state decides whether they are kept).",
          "Decides the code shape from which exact counting follows for every interleaving; does not execute interleavings. Prometheus client internals trusted.",
          "go/ssa path-multiplicity, atomic-discipline, lock-state and provenance rules", "§4 C01"),
- "C02": ("RMW discipline of the pending counter (single Swap / single Add whose own result decides), drop count provenance (loop bound is the Swap result), who-may-call for the counter and for RecordDroppedIteration, limit path discards silently and the drop loop is guarded by the limit predicate, condition-variable discipline (Wait in a re-checking loop under L; falsifying writes followed by Broadcast under L).",
+ "C02": ("RMW discipline of the pending counter (single Swap / single Add whose own result decides), drop count provenance (loop bound is the Swap result), who-may-call for the counter and for RecordDroppedIteration, limit path discards silently and the drop loop is guarded by the limit predicate, condition-variable discipline (Wait in a re-checking loop under L; falsifying writes followed by Broadcast under L). The gate a tick passes (stop flag) is closed before the final supersede of the stop function.",
          "Per-operation atomicity and wake-up discipline are decided; the full interleaving semantics of set/take/none is a state-space question and is not claimed.",
          "go/ssa atomic RMW rules, who-may-call, dominance/control-dependence, sync.Cond discipline", "§4 C02"),
- "C03": ("Single atomic increment allocates ids and both the returned id and the refusal test use its result; refusal predicate has the truth table max>0 && id>max; every ActiveScenario.Run call is preceded in the same loop iteration by a successful NextIteration whose id feeds T.Reset; one PoolManager per run, not per stage.",
+ "C03": ("Single atomic increment allocates ids and both the returned id and the refusal test use its result; refusal predicate has the truth table max>0 && id>max; every ActiveScenario.Run call is preceded in the same loop iteration by a successful NextIteration whose id feeds T.Reset; one PoolManager per run, not per stage. Every pool builds its own per-worker handles (handle isolation), so no two running invocations share the handle the id is stored in.",
          "'Exactly N when the trigger keeps requesting' is liveness and not decided.",
          "go/ssa who-may-write, RMW-result dataflow, dominance, provenance", "§4 C03"),
  "C04": ("Exactly numWorkers worker goroutines, each a sequential loop that runs iterations by plain call on its own iterationState; the state pool has length numWorkers with a fresh T per index; start barrier present in both pools.",
@@ -24,13 +24,13 @@ P = {
  "C05": ("Join of the progress reporter (C18.R1), no self-deadlocking re-acquisition of Result.mu, nested read locks only outside the region where the snapshot writer may run, stop flag set by a watcher of the worker context plus wake-up discipline, every main-goroutine wait on a user-bound event has a timeout/cancel arm, every goroutine root has an exit edge, trigger context derived from the caller's and cancelled by defer.",
          "Wall-clock bounds and goroutine absence under arbitrary scheduling are not decided; rules give the structural causes of non-termination and late activity.",
          "go/ssa lock-state dataflow, goroutine-root inventory, bounded-wait rule, dominance", "§4 C05"),
- "C06": ("Setup exactly once before the failure test and run only on its false branch; teardown deferred on every path after setup, single caller; per-iteration teardown exactly once after the body; cleanup loop runs indices len-1..0 each in its own recovered frame; who-may-write for the cleanup stack and tearingDown.",
+ "C06": ("Setup exactly once before the failure test and run only on its false branch; teardown deferred on every path after setup, single caller; per-iteration teardown exactly once after the body; cleanup loop runs indices len-1..0 each in its own recovered frame; who-may-write for the cleanup stack and tearingDown. The tearing-down marker is on before every cleanup call and switched off only after the cleanup ran and its outcome was classified (events, defers last-registered-first).",
          "Re-registration of cleanups during teardown is unspecified and not decided.",
          "go/ssa path multiplicity + dominance, typed-AST loop shape, who-may-write", "§4 C06"),
  "C07": ("Every dynamic call of user code (ScenarioFn, RunFn, cleanup) lies in a frame with a recovering defer registered before it; every non-sentinel recovered value reaches Fail; all failure APIs store the failed flag; failed is set only by Fail/FailNow and cleared only by Reset, which precedes every Run.",
          "Panics on goroutines started by user code cannot be contained by Go and are out of scope.",
          "go/ssa containment (recovering-defer dominance), path rules, who-may-write", "§4 C07"),
- "C08": ("Complete truth table of Result.Failed over its comparison atoms equals the specification (predicate abstraction of one function's CFG, all assignments enumerated); the share comparison contains no integer division and no truncating quotient; its denominator is all iterations; runCmdExecute returns nil only after testing Error()==nil and !Failed(); options fed from the same-named flags.",
+ "C08": ("Complete truth table of Result.Failed over its comparison atoms equals the specification (predicate abstraction of one function's CFG, all assignments enumerated); the share comparison contains no integer division and no truncating quotient; its denominator is all iterations; runCmdExecute returns nil only after testing Error()==nil and !Failed(); options fed from the same-named flags. The snapshot the verdict reads is the unmodified result of Stats.Total, stored exactly once on every path of the function taking the totals.",
          "Values are treated only through comparisons; cobra/os.Exit wiring trusted.",
          "decision-table enumeration over SSA comparison atoms, lossy-op dataflow, dominance", "§4 C08"),
  "C09": ("The rate function is evaluated at exactly two sites in the ticking closure: once before the loop and once per ticker receive; each result is passed unchanged to Trigger and on to the pending counter; the ticker period is the interval parameter unchanged; the loop's only other arm is context-done → return.",
@@ -45,10 +45,10 @@ P = {
  "C12": ("Cycle protocol of both distributions (underlying rate evaluated only under remainingSteps==0 which reloads the counter; exactly one decrement per call), pass-through identity for none / short intervals, integer conservation shape of the random distribution (value subtracted is value returned, clamp, last step emits the remainder).",
          "Exact sum and evenness of the regular distribution's float accumulation are numerical and not decided.",
          "go/ssa path multiplicity on captured cells, provenance, sign analysis", "§4 C12"),
- "C13": ("Carry conservation on the balance cell (requested = rate + balance; balance = requested - rounded; return int(rounded)), outputs clamped at 0, zero-jitter early return is the identity.",
+ "C13": ("Carry conservation on the balance cell (requested = rate + balance; balance = requested - rounded; return int(rounded)), outputs clamped at 0, zero-jitter early return is the identity. When the carry is lock-protected, its read and its update lie in one critical section.",
          "The bound on the running difference and the per-value jitter bound are magnitude reasoning and not decided.",
          "carry-conservation template on SSA, sign analysis", "§4 C13"),
- "C14": ("Guard rules over the input-facing code: index/slice bounds, tick-interval positivity at the NewDistribution choke point and from ParseRate, non-nil facts before every dereference of YAML-populated pointer fields, worker counts >= 1 on both the flag and the config path, integer divisors non-zero, rejection before setup.",
+ "C14": ("Guard rules over the input-facing code: index/slice bounds, tick-interval positivity at the NewDistribution choke point and from ParseRate, non-nil facts before every dereference of YAML-populated pointer fields, worker counts >= 1 on both the flag and the config path, integer divisors non-zero, rejection before setup. A deferred function never erases the error being returned through a named result.",
          "Meaning of unit spellings (e.g. '.5s') is string semantics and not decided; yaml.v3 decoding trusted.",
          "guard/dominance rules (bounds idioms, positivity, must-non-nil dataflow with summaries)", "§4 C14"),
  "C15": ("Skip rule shape (cumulative duration incremented before and independently of the test; stageStart nil or stageStart+cumulative After now), default-field correspondence in all validators, argument↔parameter correspondence of the four Calculate*Rate calls, limits chain one-to-one, sequential stage execution with setEnvs/unsetEnvs pairing on the same map.",
@@ -57,16 +57,16 @@ P = {
  "C16": ("Label names at SummaryVec construction and label values at every WithLabelValues site agree position by position, static keys and values both derive from the sorted key list, Reset covers every vector and precedes Setup, exactly one setup observation on every path.",
          "Prometheus client internals trusted.",
          "go/ssa positional provenance, path multiplicity, dominance", "§4 C16"),
- "C17": ("Both recorded durations are the difference of the same two monotonic clock reads that bracket exactly the recovered body (teardown after the second read; first read inside Run), aggregate field correspondence (sum↔sum, count↔count, min↔min, max↔max; drain touches every field; snapshot mapping), lifetime count only grows.",
+ "C17": ("Both recorded durations are the difference of the same two monotonic clock reads that bracket exactly the recovered body (teardown after the second read; first read inside Run), aggregate field correspondence (sum↔sum, count↔count, min↔min, max↔max; drain touches every field; snapshot mapping), lifetime count only grows. While recording, a period's extremes only move outwards (every plain store to min/max in Add is behind the matching comparison or the unset test).",
          "min<=mean<=max, the 0 sentinel and exactness of the integer mean are value reasoning and not decided.",
          "go/ssa dominance + provenance correspondence", "§4 C17"),
  "C18": ("Join: the channel Stop blocks on is closed only by the goroutine invoking the run function, after its last possible invocation; the function is invoked only there, under the ticker arm, once per receive; the loop exits on the derived context after stopping ticker and timer and Stop cancels before waiting; restart selects schedule 0, the timer selects current+1, the period is the selected schedule's Frequency.",
          "Tick timing rests on time.Ticker/Timer and is not decided.",
          "go/ssa who-may-call/close, select-arm dominance, reachability", "§4 C18"),
- "C19": ("All templates type-check against the data types they are executed with (fields, function names, arity, argument assignability) so rendering cannot fail; helper functions are total; count keys of the view data are fed from the matching snapshot paths; every percent is over .Iterations of the field shown; slog keys bound to the same-named counts.",
+ "C19": ("All templates type-check against the data types they are executed with (fields, function names, arity, argument assignability) so rendering cannot fail; helper functions are total; count keys of the view data are fed from the matching snapshot paths; every percent is over .Iterations of the field shown; slog keys bound to the same-named counts. The totals the summary states are stored unmodified and unconditionally where they are taken.",
          "Colours and layout are covered by the existing golden tests and not decided.",
          "text/template parse-tree type check against go/types, provenance tables", "§4 C19"),
- "C20": ("Each component setup is called with the setup closure's own parameter and its result appended in loop order; each stored RunFn is called with the iteration closure's own parameter; both loops are single forward passes with no go/defer/recover.",
+ "C20": ("Each component setup is called with the setup closure's own parameter and its result appended in loop order; each stored RunFn is called with the iteration closure's own parameter; both loops are single forward passes with no go/defer/recover. Every pool builds its own per-worker handles, so a component's failure is booked on that iteration's handle.",
          "Reported-failed relies on C07's containment rules.",
          "go/ssa provenance of call arguments, loop-shape and effect rules", "§4 C20"),
 }
